@@ -244,6 +244,7 @@ package state
 // type and the JSON encodings of the values it was given.  That decoding the
 // encoded value yields the value again is the assumed json round-trip law.
 //@ event entityTypeCall := call EntityType
+//@ event nowCall := call Now
 //@ event newMsgCall := call newChangeMessage
 //@ func newChangeMessage
 //@   props C19
@@ -255,7 +256,8 @@ package state
 //@   ensures [C19.new.type] err == nil ==> result0.Type == ite(cfg.entityType != "", cfg.entityType, lastres(entityTypeCall, String))
 //@   ensures [C19.new.txid] err == nil ==> result0.Headers.TxID == cfg.txID
 //@   ensures [C19.new.timestamp] err == nil ==> (cfg.timestamp != nil ==> result0.Headers.Timestamp == timeFormat(*cfg.timestamp, "2006-01-02T15:04:05.999999999Z07:00")) &&
-//@        (cfg.timestamp == nil && !cfg.autoTimestamp ==> result0.Headers.Timestamp == "")
+//@        (cfg.timestamp == nil && !cfg.autoTimestamp ==> result0.Headers.Timestamp == "") &&
+//@        (cfg.timestamp == nil && cfg.autoTimestamp ==> cnt(nowCall) == 1 && result0.Headers.Timestamp == timeFormat(timeUTC(lastres(nowCall)), "2006-01-02T15:04:05.999999999Z07:00"))
 //@   ensures [C19.new.value] err == nil && value != nil ==> result0.Value == json(boxOf(*T, value))
 //@   ensures [C19.new.novalue] err == nil && value == nil ==> result0.Value == ""
 //@   ensures [C19.new.old] err == nil && oldValue != nil ==> result0.OldValue == json(boxOf(*T, oldValue))
